@@ -1,12 +1,66 @@
-"""C13 — decided by theorems in coq/Props/C13.v plus scripted workloads on the sequential correspondence engine."""
-import seqprops
-TRUSTED = ['AM (Model/Afs.v) with the limits the server itself announces in FSINFO/PATHCONF as parameters; Agree.dir_agree / readdir_matches_model for listings']
+"""C13 — decided by theorems in coq/Props/C13.v plus scripted workloads on the sequential correspondence engine and the
+differential run of the directory layer against the extracted DM."""
+import os, re
+import seqprops, vlib
+from vlib import Failure
+TRUSTED = ['AM (Model/Afs.v) with the limits the server itself announces in FSINFO/PATHCONF as parameters; Agree.dir_agree / readdir_matches_model for listings',
+           'DM (Model/DirModel.v) is a hand transliteration of dir/dir.go + dir/dcache.go, run against them (result, slots, cache, Lastoff after every operation)']
 ASSUMPTIONS = ['sequential client; disks large enough that space is not the limiting factor']
 
 
+def model_diff(ctx, mode, nruns, nops):
+    """a layer of the code driven directly by the harness (`h <mode>`), operation by operation, against its extracted
+       model (`drv <mode>`): dirmodel = dir.LookupName/AddName/RemName + name cache vs DM; atmodel = alloctxn over the
+       real allocator and bitmap vs AT"""
+    fails, ops = [], 0
+    for k in range(nruns):
+        seed = ctx.seed * 100 + k
+        trace = os.path.join(ctx.work, mode + '.trace')
+        rep = dict(kind=mode, seed=seed, nops=nops, how='h %s -seed S -nops N -out T ; drv %s T' % (mode, mode))
+        rc, o, e = vlib.harness([mode, '-seed', str(seed), '-nops', str(nops), '-out', trace], timeout=300)
+        if rc != 0:
+            fails.append(Failure(ctx.prop, 'panic', mode + '-harness', (e or o)[-400:], replay=rep))
+            continue
+        rc2, o, e = vlib.sh('ulimit -s unlimited 2>/dev/null; exec %s %s %s' % (os.path.join(vlib.BIN, 'drv'), mode, trace), timeout=300)
+        done = False
+        for line in o.splitlines():
+            m = re.match(r'^[DA] (\d+) BAD (\S+?):(.*)$', line)
+            if m and not [f for f in fails if f.where == m.group(2)]:
+                fails.append(Failure(ctx.prop, mode, m.group(2), m.group(3)[:300], replay=dict(rep, op_index=int(m.group(1)))))
+            m = re.match(r'^DONE ops=(\d+) bad=(\d+)', line)
+            if m:
+                done = True
+                ops += int(m.group(1))
+        if rc2 != 0 or not done:
+            fails.append(Failure(ctx.prop, 'tie', mode + '-driver', (o + e)[-400:], replay=rep))
+    return fails, ops
+
+
+def model_replay(ctx, r):
+    mode = r['kind']
+    trace = os.path.join(ctx.work, mode + '_replay.trace')
+    rc, o, e = vlib.harness([mode, '-seed', str(r['seed']), '-nops', str(r['nops']), '-out', trace], timeout=300)
+    rc2, o, e = vlib.sh('ulimit -s unlimited 2>/dev/null; exec %s %s %s' % (os.path.join(vlib.BIN, 'drv'), mode, trace), timeout=300)
+    print(o[-2000:])
+    return 1 if ' BAD ' in o or rc != 0 else 0
+
+
+def dirmodel(ctx, nruns, nops):
+    return model_diff(ctx, 'dirmodel', nruns, nops)
+
+
 def run(ctx, ps, gen_bad):
-    return seqprops.run(ctx, 'C13', ps, gen_bad)
+    fails, cov = seqprops.run(ctx, 'C13', ps, gen_bad)
+    f2, n = dirmodel(ctx, 6 if ctx.quick else 120, 600 if ctx.quick else 1500)
+    fails += f2
+    cov['directory_layer_operations_compared_with_DM'] = n
+    cov['evaluations'] += n
+    return fails, cov
 
 
 def replay(ctx, path):
+    import json
+    r = json.load(open(path))
+    if r.get('kind') == 'dirmodel':
+        return model_replay(ctx, r)
     return seqprops.replay(ctx, path)
